@@ -23,6 +23,15 @@ EXPLANATION = (
 
 
 def run(ctx: Ctx):
+    # what route() reads (graph, node cells, link table) is what the constructor built: no method of the network changes it afterwards
+    def _frozen_network(ctx_):
+        from . import c16 as _c16
+        osm_mod = ctx_.repo.module("nrel/hive/model/roadnetwork/osm/osm_roadnetwork.py")
+        c_ = osm_mod.classes.get("OSMRoadNetwork")
+        ctx_.require(c_ is not None, "OSMRoadNetwork not found")
+        _c16._init_only_assignment(ctx_, c_)
+        ctx_.ok("D1", "IM.closure", "OSMRoadNetwork: no method other than __init__ changes the graph / tables route() reads", file=c_.relpath, line=c_.node.lineno, function=c_.name)
+    ctx.attempt(_frozen_network, ctx)
     ctx.attempt(search_call, ctx)
     ctx.attempt(heuristic, ctx)
     ctx.attempt(speed_bound, ctx)
